@@ -607,31 +607,43 @@ func (u *Unit) mergeStates(ins []incoming) *State {
 		}
 		out.heap[k] = u.mergeVals(conds, vals).(*Term)
 	}
-	// cells: only those present in every incoming state survive
-	for a, v0 := range ins[0].st.cells {
-		vals := []Val{v0}
-		ok := true
-		for _, x := range ins[1:] {
+	// cells: a variable not yet allocated on some incoming path has its zero value there
+	allCells := map[*ssa.Alloc]bool{}
+	for _, x := range ins {
+		for a := range x.st.cells {
+			allCells[a] = true
+		}
+	}
+	var cellList []*ssa.Alloc
+	for a := range allCells {
+		cellList = append(cellList, a)
+	}
+	sort.Slice(cellList, func(i, j int) bool {
+		if cellList[i].Pos() != cellList[j].Pos() {
+			return cellList[i].Pos() < cellList[j].Pos()
+		}
+		return cellList[i].Name() < cellList[j].Name()
+	})
+	for _, a := range cellList {
+		vals := make([]Val, len(ins))
+		for i, x := range ins {
 			v, has := x.st.cells[a]
 			if !has {
-				ok = false
-				break
+				v = u.zeroVal(ptrElem(a.Type()))
 			}
-			vals = append(vals, v)
+			vals[i] = v
 		}
-		if ok {
-			func() {
-				defer func() {
-					if r := recover(); r != nil {
-						if _, isU := r.(unsupported); isU {
-							return // cell dropped: reading it later reports unsupported
-						}
-						panic(r)
+		func() {
+			defer func() {
+				if r := recover(); r != nil {
+					if _, isU := r.(unsupported); isU {
+						return // cell dropped: reading it later reports unsupported
 					}
-				}()
-				out.cells[a] = u.mergeVals(conds, vals)
+					panic(r)
+				}
 			}()
-		}
+			out.cells[a] = u.mergeVals(conds, vals)
+		}()
 	}
 	// now
 	{
